@@ -25,7 +25,7 @@ class Scope:
 
 class ProgGen:
     def __init__(self, rng, max_depth=3, names=None, funcs=True, containers=True, loops=True,
-                 ifs=True, blocks=True, prefix=""):
+                 ifs=True, blocks=True, prefix="", effects=True):
         self.r = rng
         self.max_depth = max_depth
         self.names = [prefix + n for n in (names or G.NAMES[:6])]
@@ -39,6 +39,11 @@ class ProgGen:
         self.use_blocks = blocks
         self.funcs = {}     # name -> (params, returns type)
         self.stats = {}
+        # effectful helpers: a global counter (and a global log list) that generated functions bump / append to, so that calls in
+        # operand, argument, element, index and condition positions have observable effects (evaluation order, re-entrancy)
+        self.use_effects = effects and funcs
+        self.eff_counter = prefix + "চিহ্ন"
+        self.eff_log = prefix + "খাতা"
 
     def bump(self, k):
         self.stats[k] = self.stats.get(k, 0) + 1
@@ -195,10 +200,27 @@ class ProgGen:
     def function(self, sc, name):
         r = self.r
         params = [self.names[i] for i in range(r.below(3))]
-        fsc = Scope(sc)
+        psc = Scope(sc)                 # the parameter scope (what the return written after the block can see)
         for p in params:
-            fsc.vars[p] = "num"
+            psc.vars[p] = "num"
+        fsc = Scope(psc)                # the body block
         body = self.stmts(fsc, r.range(1, 4), 1, False, "num")
+        if self.use_effects and r.chance(0.6):
+            eff = [("assign", self.eff_counter, [], G.bin_("+", G.var(self.eff_counter), G.num(1)))]
+            if self.use_containers and r.chance(0.5):
+                eff.append(("expr", G.call("_লিস্ট-পুশ", G.var(self.eff_log), G.var(self.eff_counter))))
+            k = r.below(len(body) + 1)
+            body = body[:k] + eff + body[k:]
+            self.bump("effectful-function")
+        if r.chance(0.4):
+            # the documented style: the value is the operand of the return written after the block (`} ফেরত e;`); the body may
+            # be empty, or leave early through a return of its own
+            self.bump("closing-return")
+            if r.chance(0.25):
+                body = [st for st in body if st[0] == "assign" and st[1] == self.eff_counter][:1]
+            closing = self.expr("num", psc)
+            self.funcs[name] = (params, "num")      # registered last: generated functions never call themselves
+            return ("func", name, params, body, closing)
         body.append(("return", self.expr("num", fsc)))
         self.funcs[name] = (params, "num")
         return ("func", name, params, body)
@@ -206,9 +228,19 @@ class ProgGen:
     def program(self, n_stmts=8, n_funcs=None):
         sc = Scope()
         prog = []
+        if self.use_effects:
+            prog.append(("decl", self.eff_counter, G.num(0)))
+            sc.vars[self.eff_counter] = "num"
+            if self.use_containers:
+                prog.append(("decl", self.eff_log, G.lst()))
+                sc.vars[self.eff_log] = "list"
         if self.use_funcs:
             nf = self.r.below(3) if n_funcs is None else n_funcs
             for i in range(nf):
                 prog.append(self.function(sc, self.fnames[i]))
         prog += self.stmts(sc, n_stmts, 0)
+        if self.use_effects:
+            prog.append(("print", G.var(self.eff_counter)))
+            if self.use_containers:
+                prog.append(("print", G.var(self.eff_log)))
         return prog
